@@ -54,7 +54,7 @@ func TestVerif_C05(t *testing.T) {
 	run.Assume("prediction of deterministic samplers comes from a private instance of the real DeterministicSampler; rules predictions from a field every span of the trace carries")
 
 	steps := run.N(60, 150)
-	run.Cases("dry-run", run.N(200, 5000), func(i int, rng *verifkit.Rand) {
+	run.Cases("dry-run", run.N(200, 2000), func(i int, rng *verifkit.Rand) {
 		p := E1Profile{DryRun: true, MaxSteps: steps, PredictableOnly: rng.Chance(0.67), StressSpans: rng.Chance(0.33)}
 		h := e1GenHistory(rng, p)
 		planOf := map[string]*e1TracePlan{}
